@@ -35,9 +35,9 @@ theorem decHeaderType_enc (t : BoxType) (l e : Bool) (n : Nat) (rest : Bytes) (h
     simp only [decHeaderType, BoxType.cc, BoxType.ext, if_true, takeN_append' 16 _ _ this,
       andThen_some]
 
-theorem decHeader_encHeader (t : BoxType) (l : Bool) (n : Nat) (rest : Bytes) (ht : t.Wf)
-    (hn : sizeOk l n) :
-    decHeader (encHeader t l n ++ rest)
+theorem decHeader_encHeader (tail : Nat) (t : BoxType) (l : Bool) (n : Nat) (rest : Bytes)
+    (ht : t.Wf) (hn : sizeOk l n) :
+    decHeader tail (encHeader t l n ++ rest)
       = some ({ typ := t, large := l, toEnd := false, size := n }, rest) := by
   have hcc := BoxType.cc_length t ht
   cases l with
@@ -74,10 +74,10 @@ theorem decHeaderType_spec {cc : Bytes} {l e : Bool} {n : Nat} {bs : Bytes} {h :
 
 /-- every accepted header with an explicit size is canonical: re-encoding it in
 the form it had gives back the input -/
-theorem decHeader_spec {bs : Bytes} {h : Header} {rest : Bytes}
-    (hd : decHeader bs = some (h, rest)) :
+theorem decHeader_spec {tail : Nat} {bs : Bytes} {h : Header} {rest : Bytes}
+    (hd : decHeader tail bs = some (h, rest)) :
     h.typ.Wf ∧ (h.toEnd = false → sizeOk h.large h.size ∧ encHeader h.typ h.large h.size ++ rest = bs) ∧
-    (h.toEnd = true → h.size = bs.length ∧ h.large = false) := by
+    (h.toEnd = true → h.size = bs.length + tail ∧ h.large = false) := by
   simp only [decHeader, andThen_eq_some_iff] at hd
   obtain ⟨sz, r1, h1, cc, r2, h2, h3⟩ := hd
   obtain ⟨hcc, hcc'⟩ := takeN_spec h2
